@@ -292,6 +292,29 @@ def run(ctx):
             ctx.trace_ok()
     ctx.sample({"mode": "cluster", "shape": sh, "spec_overlaps": exp_pairs,
                 "spec_warn": st["obs"]["warn"]})
+    # pairs that overlap, or miss each other, by a hair (1e-6 and 1e-9 of the sum of radii), in microns and in metres: the
+    # pair is reported exactly when the distance is smaller than the sum of radii, and the warning goes with it
+    for unit in (1.0, 1e-6):
+        for depth in (1e-6, 1e-9, -1e-9, -1e-6):
+            for (r1, r2) in ((0.5, 0.5), (1.25, 0.75), (0.5, 2.0)):
+                R = (r1 + r2) * unit
+                dist_ = R * (1 - depth)
+                c2 = tuple(dist_ * v for v in (2 / 3.0, -1 / 3.0, 2 / 3.0))           # unit vector (2, -1, 2) / 3
+                real_d = math.sqrt(sum(v * v for v in c2))
+                if (real_d < R) != (depth > 0):
+                    continue                                                          # (rounding ate the hair)
+                ctx.case(("hair", unit, depth, r1, r2), nontrivial=True)
+                with warnings.catch_warnings(record=True) as w:
+                    warnings.simplefilter("always")
+                    sc = Spheres([Sphere(n=1.5, r=r1 * unit, center=(0.0, 0.0, 0.0)), Sphere(n=1.5, r=r2 * unit, center=c2)])
+                warned = any(issubclass(x.category, OverlapWarning) for x in w)
+                got_pairs = sorted(tuple(p_) for p_ in sc.overlaps)
+                want_pairs = [(0, 1)] if depth > 0 else []
+                if got_pairs != want_pairs or warned != (depth > 0):
+                    ctx.violation("cluster/overlaps/by_a_hair", {"unit": unit, "relative_depth": depth, "radii": [r1, r2],
+                                                                 "impl_pairs": got_pairs, "warned": warned})
+                else:
+                    ctx.trace_ok()
     # larger collections (up to 8 members) by seeded generation, recorded as traces
     nbig = 30 if quick else 300
     for t in range(nbig):
